@@ -17,9 +17,10 @@ func init() {
 			{PkgPath: testgenPkg, Func: "verifC18TwoFiles", Opt: big, Replay: "testgen"},
 			{PkgPath: testgenPkg, Func: "verifC18Usage", Opt: big, Replay: "testgen"},
 			{PkgPath: testgenPkg, Func: "verifC18LongLine", Opt: big, Replay: "testgen"},
+			{PkgPath: testgenPkg, Func: "verifC18Scenarios", Opt: big, Replay: "testgen"},
 		},
-		Covers: []string{"c18/run", "c18/some-test", "c18/usage", "c18/longline"},
-		Bounds: "directory of 1 file × 1 line (quick) / 2 lines (thorough) of exactly 20 bytes, or 2 files × 1 line of 12 (quick) / 19 (thorough) bytes; file names of exactly 9 bytes; every byte symbolic (no '/' or NUL in names, no newline in lines); a file with a comment line of 65535, 65536 or 70000 bytes between two test functions (bufio.Scanner's token limit is modelled); both generators run on the same directory and are compared byte-for-byte with the oracle's expected output",
+		Covers: []string{"c18/run", "c18/some-test", "c18/usage", "c18/longline", "c18/scenarios"},
+		Bounds: "directory of 1 file × 1 line (quick) / 2 lines (thorough) of exactly 20 bytes, or 2 files × 1 line of 12 (quick) / 19 (thorough) bytes; file names of exactly 9 bytes; every byte symbolic (no '/' or NUL in names, no newline in lines); three larger concrete directories (six file names that sort differently under case-insensitive or numeric collation; a file of near-miss and unusual headers incl. a 55-character name, CRLF lines, tabs, methods, comments; a file with 130 test functions); a file with a comment line of 65535, 65536 or 70000 bytes between two test functions (bufio.Scanner's token limit is modelled); both generators run on the same directory and are compared byte-for-byte with the oracle's expected output",
 		Assumptions: []string{
 			"flag, os.ReadDir/Open/Create, bufio.Scanner (line mode) and fmt.Fprint* are intrinsics; os.ReadDir returns entries sorted by name",
 			"the two real regexp constants are compiled by the host's regexp/syntax and matched by a symbolic leftmost-first backtracker at byte level (sound for these ASCII-only patterns)",
